@@ -179,6 +179,10 @@ type c02Case struct {
 	NoBackoff bool      `json:"no_backoff"`
 	SilenceUntil int64  `json:"silence_until"`
 	SilenceTo string    `json:"silence_to"`
+	SilenceFrom int     `json:"silence_from,omitempty"`
+	KeepHellos bool     `json:"keep_hellos,omitempty"`
+	ReverseTo string    `json:"reverse_to,omitempty"`
+	ReverseFrom int     `json:"reverse_from,omitempty"`
 }
 
 func c02Recs(d vDatagram, cidLen int) []c02Rec {
@@ -222,6 +226,10 @@ type c02Opt struct {
 	SilenceUntil time.Duration // drop every datagram addressed to SilenceTo until this virtual time
 	SilenceTo    string        // "client", "server" or "both"
 	Limit        time.Duration // give up after this much virtual time (0 = 400 s)
+	SilenceFrom  int           // the silence only applies to datagrams with emission index >= SilenceFrom
+	KeepHellos   bool          // the silence lets ClientHello datagrams through (the handshake reaches the later flights)
+	ReverseTo    string        // every burst of datagrams addressed to this side is delivered in reverse order ...
+	ReverseFrom  int           // ... from this emission index on (until SilenceUntil)
 }
 
 func runC02(t *testing.T, v c02Variant, mask []string, opt c02Opt) c02Case {
@@ -230,6 +238,7 @@ func runC02(t *testing.T, v c02Variant, mask []string, opt c02Opt) c02Case {
 	res := c02Case{
 		Kind: "c02", Variant: v.Name, Mask: mask, Interval: interval.Milliseconds(), NoBackoff: opt.NoBackoff,
 		SilenceUntil: opt.SilenceUntil.Milliseconds(), SilenceTo: opt.SilenceTo,
+		SilenceFrom: opt.SilenceFrom, KeepHellos: opt.KeepHellos, ReverseTo: opt.ReverseTo, ReverseFrom: opt.ReverseFrom,
 	}
 	if res.Interval == 0 {
 		res.Interval = 1000
@@ -285,14 +294,41 @@ func runC02(t *testing.T, v c02Variant, mask []string, opt c02Opt) c02Case {
 		synctest.Wait()
 		r.logEmissions("timer")
 		progressed := false
-		for _, d := range lab.Net.since(next) {
-			next = d.Idx + 1
+		batch := lab.Net.since(next)
+		if opt.ReverseTo != "" && lab.Net.now() < opt.SilenceUntil {
+			// stable partition: bursts towards ReverseTo (emission index >= ReverseFrom) leave in reverse order
+			var rev []vDatagram
+			for _, d := range batch {
+				if d.To == opt.ReverseTo && d.Idx >= opt.ReverseFrom {
+					rev = append(rev, d)
+				}
+			}
+			k := len(rev) - 1
+			for i, d := range batch {
+				if d.To == opt.ReverseTo && d.Idx >= opt.ReverseFrom {
+					batch[i] = rev[k]
+					k--
+				}
+			}
+			if len(rev) > 1 {
+				res.LastFault = lab.Net.now().Milliseconds()
+			}
+		}
+		for _, d := range batch {
+			if d.Idx >= next {
+				next = d.Idx + 1
+			}
 			act := "pass"
 			if d.Idx < len(mask) {
 				act = mask[d.Idx]
 			}
-			if lab.Net.now() < opt.SilenceUntil && (opt.SilenceTo == "both" || opt.SilenceTo == d.To) {
+			if lab.Net.now() < opt.SilenceUntil && d.Idx >= opt.SilenceFrom && (opt.SilenceTo == "both" || opt.SilenceTo == d.To) {
 				act = "drop"
+				if opt.KeepHellos {
+					if rs := c02Recs(d, cidLen); len(rs) > 0 && rs[0].CT == 22 && rs[0].Epoch == 0 && rs[0].HT == 1 {
+						act = "pass"
+					}
+				}
 			}
 			switch {
 			case act == "pass":
